@@ -2,7 +2,7 @@
    the etcd store model through the refinement of EtcdProofs. *)
 From Coq Require Import List Bool ZArith String Lia.
 From Verif Require Import Base.RunLib Store.KVPrims Store.KVLemmas Store.Ops Store.Status Store.Spec
-  Store.EtcdModel Store.RedisModel Store.Case Store.EtcdProofs.
+  Store.EtcdModel Store.RedisModel Store.Case Store.EtcdProofs Store.RedisProofs Store.C23Proofs.
 Import ListNotations.
 Local Open Scope Z_scope.
 
@@ -338,3 +338,94 @@ Example C25_hypotheses_satisfiable :
   = [ROk (PPod "p0" "d"); ROk (PNode (mkNV (mkN "n0" "verif://n0" "p0" [] false false) true));
      ROk PUnit; ROk PUnit; ROk (PNSt "n0" "p0" true); ROk PUnit; RErr ECount].
 Proof. vm_compute. reflexivity. Qed.
+
+(* ---- Redis lifetime, on redis-safe histories (through the C23 refinement) ---- *)
+Local Open Scope Z_scope.
+Lemma redis_state_after : forall h, safe_history s_init h = true ->
+  fst (run rstep r_init h) = fst (run spec_step s_init h).
+Proof. intros h SH. apply (redis_refines_spec_partial_holds h SH). Qed.
+
+Definition C25_redis_node_partial_stmt : Prop :=
+  forall (h0 : list op) (n p : name) (ttl : Z) (h : list op),
+    let s := fst (run rstep r_init h0) in
+    let report := OSetNodeStatus n p ttl in
+    0 < ttl -> safe_history s_init (h0 ++ report :: h) = true ->
+    forallb (quiet (KNStatus n)) h = true -> advances_nonneg h -> elapsed h < ttl ->
+    snd (rstep s report) = ROk PUnit /\
+    snd (rstep (fst (run rstep (fst (rstep s report)) h)) (OGetNodeStatus n)) = ROk (PNSt n p true).
+Lemma C25_redis_node_partial_holds : C25_redis_node_partial_stmt.
+Proof.
+  intros h0 n p ttl h s report T SH Q AN EL. subst report.
+  assert (SH0 := SH). rewrite safe_history_app in SH0. apply andb_true_iff in SH0. destruct SH0 as [S0 S1].
+  cbn [safe_history] in S1. apply andb_true_iff in S1. destruct S1 as [S1 S2].
+  pose proof (redis_state_after h0 S0) as E0. fold s in E0. rewrite <- E0 in S1, S2.
+  (* the report is accepted: redis-safe means the node exists *)
+  cbn [redis_safe] in S1. replace (0 <? ttl) with true in S1 by (symmetry; apply Z.ltb_lt; exact T).
+  assert (R1 : rstep s (OSetNodeStatus n p ttl) = (s_put s (KNStatus n) (VNSt n p) (Some (r_now s + ttl)), ROk PUnit)).
+  { cbn [rstep]. unfold r_set_node_status.
+    replace (ttl =? 0) with false by (symmetry; apply Z.eqb_neq; lia).
+    replace (ttl <? 0) with false by (symmetry; apply Z.ltb_ge; lia).
+    rewrite r_set_put_ttl by exact T. reflexivity. }
+  assert (SP : spec_step s (OSetNodeStatus n p ttl) = rstep s (OSetNodeStatus n p ttl)).
+  { rewrite R1. rewrite (spec_node_report s n p ttl T), S1. reflexivity. }
+  split; [rewrite R1; reflexivity|].
+  rewrite R1. cbn [fst]. set (s1 := s_put s (KNStatus n) (VNSt n p) (Some (r_now s + ttl))) in *.
+  assert (N1 : NoDup (map fst (r_kv s1))).
+  { unfold s1, s_put. cbn [r_kv]. apply nodup_put. rewrite E0. apply spec_run_nodup. apply nodup_init. }
+  rewrite SP, R1 in S2. cbn [fst] in S2.
+  destruct (rrun_refines h s1 N1 S2) as [E1 _]. rewrite E1.
+  pose proof (spec_status_stays h s1 (KNStatus n) (VNSt n p) (Some (r_now s + ttl)) eq_refl) as ST.
+  assert (ST' : lookup (r_kv (fst (run spec_step s1 h))) (KNStatus n) = Some (mkS (VNSt n p) (Some (r_now s + ttl)))).
+  { apply ST; auto.
+    - unfold s1, s_put. cbn [r_kv]. apply lookup_put_same.
+    - unfold s1, s_put. cbn [r_now]. lia. }
+  set (sf := fst (run spec_step s1 h)) in *.
+  cbn [rstep]. unfold r_get_one, r_get. rewrite ST'. reflexivity.
+Qed.
+
+Lemma redis_status_stays : forall (h0 : list op) (report : op) (h : list op) sk v ex,
+  let s := fst (run rstep r_init h0) in
+  safe_history s_init (h0 ++ report :: h) = true ->
+  spec_step s report = (s_put s sk v ex, ROk PUnit) ->
+  is_status_key sk = true -> forallb (quiet sk) h = true -> advances_nonneg h ->
+  match ex with Some e => r_now s + elapsed h < e | None => True end ->
+  snd (rstep s report) = ROk PUnit /\
+  lookup (r_kv (fst (run rstep (fst (rstep s report)) h))) sk = Some (mkS v ex).
+Proof.
+  intros h0 report h sk v ex s SH SP K Q AN B.
+  rewrite safe_history_app in SH. apply andb_true_iff in SH. destruct SH as [S0 S1].
+  cbn [safe_history] in S1. apply andb_true_iff in S1. destruct S1 as [S1 S2].
+  pose proof (redis_state_after h0 S0) as E0. fold s in E0. rewrite <- E0 in S1, S2.
+  assert (N : NoDup (map fst (r_kv s))) by (rewrite E0; apply spec_run_nodup; apply nodup_init).
+  destruct (rstep_refines s report N S1) as [F1 F2]. rewrite SP in F1, F2, S2. cbn [fst snd] in F1, F2, S2.
+  split.
+  - destruct (snd (rstep s report)) as [p|e|]; cbn in F2; try contradiction. subst. reflexivity.
+  - rewrite F1. set (s1 := s_put s sk v ex) in *.
+    assert (N1 : NoDup (map fst (r_kv s1))) by (unfold s1, s_put; cbn [r_kv]; apply nodup_put; exact N).
+    destruct (rrun_refines h s1 N1 S2) as [E1 _]. rewrite E1.
+    apply spec_status_stays; auto; unfold s1, s_put; cbn [r_kv r_now]; first [apply lookup_put_same | exact B].
+Qed.
+
+Definition C25_redis_workload_partial_stmt : Prop :=
+  forall (h0 : list op) (st : wstat) (a e n : name) (ttl : Z) (h : list op),
+    let s := fst (run rstep r_init h0) in
+    let report := OSetWorkloadStatus st a e n ttl in
+    let sk := KStatus a e n (ws_id st) in
+    status_args_bad a e n = false -> 0 <= ttl ->
+    safe_history s_init (h0 ++ report :: h) = true ->
+    (0 < ttl -> mem (r_kv s) (KWl (ws_id st)) = true) ->
+    forallb (quiet sk) h = true -> advances_nonneg h -> (0 < ttl -> elapsed h < ttl) ->
+    snd (rstep s report) = ROk PUnit /\
+    option_map s_val (lookup (r_kv (fst (run rstep (fst (rstep s report)) h))) sk) = Some (VWSt st).
+Lemma C25_redis_workload_partial_holds : C25_redis_workload_partial_stmt.
+Proof.
+  intros h0 st a e n ttl h s report sk B T SH EX Q AN EL. subst report sk.
+  pose proof (spec_workload_report s st a e n ttl B) as SP.
+  destruct (ttl =? 0) eqn:Z0.
+  - destruct (redis_status_stays h0 _ h _ _ None SH SP eq_refl Q AN I) as [R1 R2].
+    split; [exact R1 | fold s in R2; rewrite R2; reflexivity].
+  - apply Z.eqb_neq in Z0. assert (TP : 0 < ttl) by lia. unfold s_mem in SP. rewrite (EX TP) in SP.
+    destruct (redis_status_stays h0 _ h _ _ (Some (r_now s + ttl)) SH SP eq_refl Q AN) as [R1 R2].
+    + specialize (EL TP). fold s. lia.
+    + split; [exact R1 | fold s in R2; rewrite R2; reflexivity].
+Qed.
